@@ -104,7 +104,9 @@ func runCDSess(env *Env) error {
 				if cur != "" {
 					nsec = len(data[cur]) / secSize
 				}
-				switch env.Rnd.Intn(6) {
+				switch env.Rnd.Intn(7) {
+				case 6:
+					start, cnt = 0, 0 // nothing from the very first sector
 				case 0:
 					start, cnt = uint32(env.Rnd.Intn(nsec)), 0
 				case 1:
